@@ -398,6 +398,48 @@ MUTANTS = [
                 }
                 has_it = true;''', new='''                self.add_prepared_statement_to_cache(name);
                 has_it = true;'''),
+    dict(id="c08-z-keeps-waiting", prop="C08", file="src/server.rs", expect="C08-R8",
+         what="D13 again: names still waiting at ReadyForQuery stay in the cache",
+         old='''                    while let Some(prepared_stmt_name) =
+                        self.registering_prepared_statement.pop_front()
+                    {
+                        if let Some(ref mut cache) = self.prepared_statement_cache {
+                            cache.pop(&prepared_stmt_name);
+                        }
+                    }
+''', new=''''''),
+    dict(id="c08-z-pops-without-uncache", prop="C08", file="src/server.rs", expect="C08-R8",
+         what="the waiting queue is emptied at ReadyForQuery but the cache keeps the names",
+         old='''                        if let Some(ref mut cache) = self.prepared_statement_cache {
+                            cache.pop(&prepared_stmt_name);
+                        }
+                    }
+
+                    // There is no more data available from the server.''',
+         new='''                        debug!("Prepared statement {} was skipped", prepared_stmt_name);
+                    }
+
+                    // There is no more data available from the server.'''),
+    dict(id="c08-immediate-not-set-aside", prop="C08", file="src/server.rs", expect="C08-R8",
+         what="a Parse sent on the spot is answered with the batch's names waiting in front of it",
+         old='''            if should_send_parse_to_server {
+                std::mem::swap(
+                    &mut registered_for_batch,
+                    &mut self.registering_prepared_statement,
+                );
+            }
+''', new=''''''),
+    dict(id="c08-immediate-not-put-back", prop="C08", file="src/server.rs", expect="C08-R8",
+         what="the names registered for the batch are lost after an on-the-spot Parse",
+         old='''            if should_send_parse_to_server {
+                self.registering_prepared_statement = registered_for_batch;
+            }
+''', new='''            drop(registered_for_batch);
+'''),
+    dict(id="c08-error-keeps-cache", prop="C08", file="src/server.rs", expect="C08-R8",
+         what="ErrorResponse no longer drops the waiting statement from the cache",
+         old='''                            if let Some(_removed) = cache.pop(&prepared_stmt_name) {''',
+         new='''                            if let Some(_removed) = cache.peek(&prepared_stmt_name) {'''),
     dict(id="c08-rewrite-changes-query", prop="C08", file="src/messages.rs", expect="C08-R6",
          what="rewrite touches more than the name",
          old='''            PREPARED_STATEMENT_COUNTER.fetch_add(1, Ordering::SeqCst)
